@@ -126,7 +126,57 @@ CALL_FACTS = {
     ("upper", None): (True, False, False, "str.upper on a value that need not be a str (AttributeError)"),
     ("lower", None): (False, False, False, "str.lower on a key already checked to be a str"),
     ("cycle", None): (False, False, False, "itertools.cycle of a literal list"),
+    ("deepcopy", "copy"): (False, False, False,
+                           "copy.deepcopy of a syntax tree: builds new objects only, touches no existing object"),
+    ("remove", "tree['classifier'].particles"): (False, True, False,
+                                                 "ParticleNode.remove(particle) on the classifier of the tree registered "
+                                                 "for that particle: the classifier of a tree lists exactly the particles "
+                                                 "it is registered for (parser; _unshare_tree keeps it so), in its set and "
+                                                 "its order list, and `particle` passed the isinstance check of __setitem__"),
 }
+
+
+def _fresh_names(fd):
+    """names bound in fd to a container created there ([] {} set() comprehension list(...))"""
+    out = set()
+    for n in ast.walk(fd):
+        if isinstance(n, ast.Assign) and len(n.targets) == 1 and isinstance(n.targets[0], ast.Name):
+            v = n.value
+            if isinstance(v, (ast.List, ast.Dict, ast.Set, ast.ListComp, ast.SetComp, ast.DictComp)) or (
+                    isinstance(v, ast.Call) and isinstance(v.func, ast.Name) and v.func.id in ("set", "list", "dict")):
+                out.add(n.targets[0].id)
+    return out
+
+
+def two_phase(fd):
+    """does the function raise only before its first change of an existing object?  (every `raise` statement
+    stands above the first call of append / extend / add / insert / remove on something not created in the
+    function, and above the first assignment to an attribute or item of such a thing)"""
+    fresh = _fresh_names(fd)
+    raises = [n.lineno for n in ast.walk(fd) if isinstance(n, ast.Raise)]
+    muts = []
+    for n in ast.walk(fd):
+        if isinstance(n, ast.Call) and isinstance(n.func, ast.Attribute) and n.func.attr in (
+                "append", "extend", "add", "insert", "remove", "pop", "clear", "update"):
+            r = n.func.value
+            while isinstance(r, (ast.Attribute, ast.Subscript)):
+                r = r.value
+            if not (isinstance(r, ast.Name) and r.id in fresh and isinstance(n.func.value, ast.Name)):
+                muts.append(n.lineno)
+        if isinstance(n, (ast.Assign, ast.AugAssign)):
+            for t in (n.targets if isinstance(n, ast.Assign) else [n.target]):
+                if isinstance(t, (ast.Attribute, ast.Subscript)):
+                    r = t
+                    while isinstance(r, (ast.Attribute, ast.Subscript)):
+                        r = r.value
+                    if not (isinstance(r, ast.Name) and r.id in fresh):
+                        muts.append(n.lineno)
+    return bool(raises) and bool(muts) and max(raises) < min(muts)
+
+
+MUTATING_METHODS = {"add", "append", "extend", "update", "clear", "discard", "insert", "remove", "pop", "popitem",
+                    "setdefault", "sort", "reverse"}
+PURE_CONTAINER_METHODS = {"items", "keys", "values", "copy", "get"}
 # constructors of MontePy classes used inside setters: (may_raise, may_mutate)
 CTOR_FACTS = {
     "Cells": (True, False, "Cells(list): TypeError / NumberConflictError while building a *new* collection; "
@@ -149,11 +199,24 @@ SUBSCRIPT_FACTS = {
         "every importance tree has a 'data' list (parser rule and _generate_default_cell_tree)",
     ("Importance", "__setitem__", "self._particle_importances[particle]['data'][0]"):
         "the 'data' list of a cell-level importance tree has exactly one value",
+    ("Importance", "_set_all", "self._particle_importances[particle]"):
+        "key present: the statement above generates the tree when `particle not in self._particle_importances`",
+    ("Importance", "_set_all", "self._particle_importances[particle]['data']"):
+        "every importance tree has a 'data' list",
+    ("Importance", "_set_all", "self._particle_importances[particle]['data'][0]"):
+        "the 'data' list of a cell-level importance tree has exactly one value",
     ("Importance", "all", "self._particle_importances[particle]['data']"):
         "every importance tree has a 'data' list",
     ("Importance", "all", "self._particle_importances[particle]['data'][0]"):
         "the 'data' list of a cell-level importance tree has exactly one value",
-    ("MCNP_Object", "leading_comments", "self._tree['start_pad']"):
+    ("Importance", "_unshare_tree", "self._particle_importances[particle]"):
+        "key present: _unshare_tree is only called by __setitem__, after the statement that generates the tree when "
+        "`particle not in self._particle_importances`",
+    ("Importance", "_unshare_tree", "new_tree['data']"): "every importance tree has a 'data' list (copy of one)",
+    ("Importance", "_unshare_tree", "new_tree['data'][-1]"): "the 'data' list of an importance tree is never empty",
+    ("Importance", "_unshare_tree", "new_tree['classifier']"): "every importance tree has a 'classifier' node",
+    ("Importance", "_unshare_tree", "tree['classifier']"): "every importance tree has a 'classifier' node",
+    ("MCNP_Object", "leading_comments.setter", "self._tree['start_pad']"):
         "the same subscript was evaluated by the `if` test just above, before any mutation",
 }
 # class of a receiver expression, per (class of self, source)
@@ -406,15 +469,27 @@ def translate_template(ix, fname):
             i += 1
             continue
         raise TranslateError(f"{fname}: unrecognised template statement: {src}")
-    if deleter is None or [ast.unparse(s) for s in deleter.body] != ["setattr(self, hidden_param, None)"]:
-        raise TranslateError(f"{fname}: unrecognised deleter")
+    if deleter is None:
+        raise TranslateError(f"{fname}: no deleter")
+    dsrc = [ast.unparse(s) for s in deleter.body]
+    if dsrc == ["setattr(self, hidden_param, None)"]:
+        # the hidden attribute itself becomes None
+        dshape = [dict(op="mutate", line=deleter.body[0].lineno, end_line=deleter.body[0].end_lineno, suffix="")]
+    elif dsrc == ["node = getattr(self, hidden_param)", "if node is not None:\n    node.value = None"]:
+        # the node stays, its value becomes None
+        iff = deleter.body[1]
+        dshape = [dict(op="branch", line=iff.lineno, end_line=iff.test.end_lineno, cond="node is not None",
+                       b1_line=iff.body[0].lineno, b1_end=iff.body[-1].end_lineno, b2_line=None, b2_end=None, b2=[],
+                       b1=[dict(op="mutate", line=iff.body[0].lineno, end_line=iff.body[0].end_lineno, suffix=".value")])]
+    else:
+        raise TranslateError(f"{fname}: unrecognised deleter: {dsrc}")
     # the setter is only installed when types is not None; the deleter only when deletable
     guards = [ast.unparse(n.test) for n in ast.walk(dec[0]) if isinstance(n, ast.If)
               and any(isinstance(b, ast.FunctionDef) for b in n.body)]
     if sorted(guards) != ["deletable", "types is not None"]:
         raise TranslateError(f"{fname}: unexpected installation guards {guards}")
     return dict(name=fname, stmts=out, file="utilities.py", setter_line=setter.lineno,
-                deleter_line=deleter.lineno, deleter_assign_line=deleter.body[0].lineno)
+                deleter_line=deleter.lineno, deleter_assign_line=deleter.body[0].lineno, deleter_stmts=dshape)
 
 
 def exc_name(r):
@@ -442,12 +517,23 @@ class FnCtx:
         self.file = file
         self.depth = depth
         self.stack = stack
+        self.qual = stack[-1][1] if stack else fname       # name.setter / name.deleter / method name
         args = [a.arg for a in fd.args.args]
         self.selfname = args[0] if args else None
         self.params = args[1:]
         self.primary = self.params[0] if self.params else None
         self.locals = set()
         self.loopvars = set()
+        self.fresh_deep = set()      # locals bound to an object graph created in this call (deepcopy / constructor)
+        self.fresh_shallow = set()   # locals bound to a container created in this call ({} [] set() comprehension)
+        self.guards = []             # sources of expressions known to be truthy (enclosing `if E:` / `if E and ..:`)
+        self.validated = set()       # names whose value a collection constructor accepted (`Cells(list(x))` statement)
+        self.last_effect = None      # source of the callee of the last effect emitted
+
+
+def first_line(fd):
+    """co_firstlineno of the compiled function: the line of its first decorator"""
+    return min([fd.lineno] + [d.lineno for d in fd.decorator_list])
 
 
 def node_span(n):
@@ -476,7 +562,10 @@ class Translator:
         return e.id if isinstance(e, ast.Name) else None
 
     def mentions_param(self, ctx, e):
-        return any(isinstance(n, ast.Name) and n.id in ctx.params for n in ast.walk(e))
+        """does the expression depend on an argument as the caller passed it?  (a parameter name that has been
+        rebound to a container created in this call does not count)"""
+        return any(isinstance(n, ast.Name) and n.id in ctx.params and n.id not in ctx.fresh_shallow
+                   and n.id not in ctx.fresh_deep for n in ast.walk(e))
 
     # ---- expression effects ----------------------------------------------------------------------
     def effects(self, ctx, e, stmt_node, absorb=False):
@@ -524,8 +613,15 @@ class Translator:
             out += self.effects(ctx, e.slice, stmt_node, absorb)
             src = ast.unparse(e)
             key = (ctx.cls, ctx.fname, src)
-            if key in SUBSCRIPT_FACTS:
-                self.notes.append((f"{ctx.cls}.{ctx.fname}", f"subscript {src} cannot raise: {SUBSCRIPT_FACTS[key]}"))
+            vsrc = ast.unparse(e.value)
+            const_end = (isinstance(e.slice, ast.Constant) and e.slice.value == 0) or (
+                isinstance(e.slice, ast.UnaryOp) and isinstance(e.slice.op, ast.USub)
+                and isinstance(e.slice.operand, ast.Constant) and e.slice.operand.value == 1)
+            if const_end and vsrc in ctx.guards:
+                self.notes.append((f"{ctx.cls}.{ctx.fname}", f"subscript {src} cannot raise: inside `if {vsrc}` (non-empty)"))
+            elif key in SUBSCRIPT_FACTS or (ctx.cls, ctx.qual, src) in SUBSCRIPT_FACTS:
+                why = SUBSCRIPT_FACTS.get(key) or SUBSCRIPT_FACTS[(ctx.cls, ctx.qual, src)]
+                self.notes.append((f"{ctx.cls}.{ctx.qual}", f"subscript {src} cannot raise: {why}"))
             elif not absorb:
                 out.append(self.mk(ctx, "call", stmt_node, f="subscript:" + src, r=True, m=False, a=False))
             return out
@@ -533,8 +629,17 @@ class Translator:
             inner = []
             for g in e.generators:
                 inner += self.effects(ctx, g.iter, stmt_node, absorb)
-            if any(isinstance(n, ast.Call) for n in ast.walk(e)) and not absorb:
-                inner.append(self.mk(ctx, "call", stmt_node, f="comprehension:" + ast.unparse(e)[:40], r=True, m=False, a=False))
+                if self.mentions_param(ctx, g.iter) and not absorb:
+                    inner.append(self.mk(ctx, "call", stmt_node, f="iter:" + ast.unparse(g.iter)[:40], r=True, m=False, a=False))
+                for n in ast.walk(g.target):
+                    if isinstance(n, ast.Name):
+                        ctx.locals.add(n.id)
+                for c in g.ifs:
+                    inner += self.effects(ctx, c, stmt_node, absorb)
+            if isinstance(e, ast.DictComp):
+                inner += self.effects(ctx, e.key, stmt_node, absorb) + self.effects(ctx, e.value, stmt_node, absorb)
+            else:
+                inner += self.effects(ctx, e.elt, stmt_node, absorb)
             return inner
         if isinstance(e, ast.Call):
             return self.call_effects(ctx, e, stmt_node, absorb)
@@ -584,10 +689,20 @@ class Translator:
             if m in CTOR_FACTS or (m in self.ix.classes and m[0].isupper()):
                 return out + self.ctor(ctx, m, e, stmt_node, absorb)
             fact = CALL_FACTS.get((m, recv)) or CALL_FACTS.get((m, None))
+            fact = self.conditional_fact(ctx, e, m, recv, fact)
+            # pure look-ups on plain containers held by self
+            if fact is None and m in PURE_CONTAINER_METHODS and isinstance(f.value, ast.Attribute) \
+                    and _is_name(f.value.value, ctx.selfname) and (ctx.cls, f.value.attr) in PLAIN_CONTAINERS:
+                return out
             # methods on local containers / strings
             if root is not None and root != ctx.selfname and root not in ctx.params and root in ctx.locals \
                     and fact is None:
-                if m in LOCAL_CONTAINER_METHODS:
+                fresh = root in ctx.fresh_deep or (root in ctx.fresh_shallow and isinstance(f.value, ast.Name))
+                if m in MUTATING_METHODS and not fresh:
+                    # the local is (or may be) an alias of an object of the problem
+                    out.append(self.mk(ctx, "call", stmt_node, f="alias:" + src, r=True, m=True, a=False))
+                    return out
+                if m in LOCAL_CONTAINER_METHODS or m in PURE_CONTAINER_METHODS:
                     return out
                 if m in LOCAL_RAISING_METHODS:
                     if not absorb:
@@ -607,7 +722,8 @@ class Translator:
                     if (ctx.cls, recv) in RECEIVER_HINTS:
                         self.notes.append((f"{ctx.cls}.{ctx.fname}", f"receiver {recv} is a {target_cls}"))
                     out.append(self.mk(ctx, "inline", stmt_node, f=f"{c}.{m}", src=src_arg, body=body,
-                                       callee=dict(file=self.ix.classes[c]["file"], name=m, line=fd.lineno)))
+                                       callee=dict(file=self.ix.classes[c]["file"], name=m, line=fd.lineno,
+                                                   first_line=first_line(fd))))
                     return out
             if fact is not None:
                 r, mu, at, why = fact
@@ -621,6 +737,23 @@ class Translator:
             return out
         out.append(self.mk(ctx, "call", stmt_node, f="unknown:" + src, r=True, m=True, a=False))
         return out
+
+    def conditional_fact(self, ctx, e, m, recv, fact):
+        """facts that depend on the shape of the code around the call / of the callee"""
+        if m == "_add_new_children_to_cell":
+            c, fd = self.ix.find_method("HalfSpace", m)
+            if fd is not None and two_phase(fd):
+                return (True, True, True,
+                        "HalfSpace._add_new_children_to_cell: every raise statement stands above the first append / extend "
+                        "(two_phase): it raises before it changes anything; the extends that follow add objects whose "
+                        "numbers were just checked against the collection and against each other")
+            return fact
+        if m == "extend" and recv == "self.cells" and len(e.args) == 1 and isinstance(e.args[0], ast.Name) \
+                and e.args[0].id in ctx.validated and ctx.last_effect == "self.cells.clear":
+            return (False, True, False,
+                    "NumberedObjectCollection.extend into the collection emptied by the statement above, of candidates that "
+                    "`Cells(list(cells))` accepted just before: the same type and collision checks, and no member left")
+        return fact
 
     def ctor(self, ctx, n, e, stmt_node, absorb):
         if n not in CTOR_FACTS:
@@ -678,6 +811,13 @@ class Translator:
                 # the primary argument is rebound to something we do not track: forget what is known
                 out.append(self.mk(ctx, "forget", st))
             ctx.locals.add(target.id)
+            ctx.fresh_deep.discard(target.id)
+            ctx.fresh_shallow.discard(target.id)
+            kind = self.freshness(ctx, value)
+            if kind == "deep":
+                ctx.fresh_deep.add(target.id)
+            elif kind == "shallow":
+                ctx.fresh_shallow.add(target.id)
             return out
         # attribute / subscript target
         out += self.effects(ctx, value, st)
@@ -694,8 +834,40 @@ class Translator:
                 inl = self.inline_setter(ctx, st, tcls, target.attr, self.argsrc(ctx, value), recv)
                 if inl is not None:
                     return out + [inl]
+        if self.fresh_target(ctx, target):
+            self.notes.append((f"{ctx.cls}.{ctx.fname}", f"assignment to {ast.unparse(target)}: inside an object created by this call"))
+            return out
         out.append(self.mk(ctx, "mutate", st, target=ast.unparse(target)))
         return out
+
+    def freshness(self, ctx, value):
+        """is the value of this expression created by the call itself?  'deep': a whole new object graph
+        (deepcopy, constructor); 'shallow': a new container whose items may be old objects; None: unknown"""
+        if isinstance(value, (ast.Dict, ast.List, ast.Set, ast.ListComp, ast.SetComp, ast.DictComp)):
+            return "shallow"
+        if isinstance(value, ast.Name) and value.id in ctx.fresh_shallow:
+            return "shallow"
+        if isinstance(value, ast.Name) and value.id in ctx.fresh_deep:
+            return "deep"
+        if isinstance(value, ast.Call):
+            fn = value.func
+            name = fn.id if isinstance(fn, ast.Name) else (fn.attr if isinstance(fn, ast.Attribute) else None)
+            if name in ("set", "list", "dict", "tuple", "frozenset", "sorted"):
+                return "shallow"
+            if name == "deepcopy":
+                return "deep"
+            if name in CTOR_FACTS and not CTOR_FACTS[name][1]:
+                return "deep"
+        return None
+
+    def fresh_target(self, ctx, target):
+        """assignment target inside an object created by this call: not a change of the problem"""
+        root = self.root_name(target)
+        if root in ctx.fresh_deep and root not in ctx.params and root != ctx.selfname:
+            return True
+        if root in ctx.fresh_shallow and isinstance(target, ast.Subscript) and isinstance(target.value, ast.Name):
+            return True
+        return False
 
     def inline_setter(self, ctx, st, tcls, attr, src, recv, kind="setter"):
         c, fd = self.ix.find_method(tcls, attr, kind)
@@ -706,7 +878,7 @@ class Translator:
             if recv != ctx.selfname:
                 self.notes.append((f"{ctx.cls}.{ctx.fname}", f"receiver {recv} is a {tcls}"))
             return self.mk(ctx, "inline", st, f=f"{c}.{attr}" + ("" if kind == "setter" else ".del"), src=src, body=body,
-                           callee=dict(file=self.ix.classes[c]["file"], name=attr, line=fd.lineno))
+                           callee=dict(file=self.ix.classes[c]["file"], name=attr, line=fd.lineno, first_line=first_line(fd)))
         d = self.ix.find_generated(tcls, attr, self.props)
         if d is not None:
             if kind == "deleter":
@@ -715,7 +887,8 @@ class Translator:
                 body = self.generated_deleter(d)
                 tm = self.templates["make_prop_val_node" if d["kind"] == "val" else "make_prop_pointer"]
                 return self.mk(ctx, "inline", st, f=f"{d['cls']}.{attr}.del", src=("unknown", None), body=body,
-                               callee=dict(file="utilities.py", name="deleter", line=tm["deleter_line"]))
+                               callee=dict(file="utilities.py", name="deleter", line=tm["deleter_line"],
+                                           first_line=tm["deleter_line"]))
             if d["types"][0] == "none":
                 raise TranslateError(f"{ctx.cls}.{ctx.fname}: assignment to read-only generated property {attr}")
             if recv != ctx.selfname:
@@ -723,7 +896,7 @@ class Translator:
             body = self.generated_setter(d, tcls)
             tm = self.templates["make_prop_val_node" if d["kind"] == "val" else "make_prop_pointer"]
             return self.mk(ctx, "inline", st, f=f"{d['cls']}.{attr}", src=src, body=body,
-                           callee=dict(file="utilities.py", name="setter", line=tm["setter_line"]))
+                           callee=dict(file="utilities.py", name="setter", line=tm["setter_line"], first_line=tm["setter_line"]))
         return None
 
     def generated_setter(self, d, self_cls=None):
@@ -748,15 +921,24 @@ class Translator:
                     vb = self.validator(d["validator"], d["file"])
                     out.append(dict(base, op="inline", f="validator:" + vb["key"], src=("same", None), body=vb["body"],
                                     end_line=t["call_line"],
-                                    callee=dict(file=vb["file"], name=d["validator"], line=vb["line"])))
+                                    callee=dict(file=vb["file"], name=d["validator"], line=vb["line"], first_line=vb["first_line"])))
             elif t["op"] in ("TAssignNodeValue", "TSetattr"):
                 out.append(dict(base, op="mutate", target="self." + d["hidden"] + (".value" if t["op"] == "TAssignNodeValue" else "")))
         return out
 
     def generated_deleter(self, d):
         tm = self.templates["make_prop_val_node" if d["kind"] == "val" else "make_prop_pointer"]
-        return [dict(op="mutate", file="utilities.py", line=tm["deleter_assign_line"], end_line=tm["deleter_assign_line"],
-                     target="self." + d["hidden"])]
+        def inst(stmts):
+            out = []
+            for t in stmts:
+                x = dict(t, file="utilities.py")
+                if t["op"] == "mutate":
+                    x["target"] = "self." + d["hidden"] + x.pop("suffix")
+                else:
+                    x["b1"], x["b2"] = inst(t["b1"]), inst(t["b2"])
+                out.append(x)
+            return out
+        return inst(json.loads(json.dumps(tm["deleter_stmts"])))
 
     def validator(self, name, file):
         key = (file, name)
@@ -772,7 +954,7 @@ class Translator:
         cls = users[0] if users else None
         body = self.function(cls, name, fd, file, 1, [(cls, name)])
         qual = os.path.basename(file)[:-3] + "." + name
-        self.validators[key] = dict(name=name, key=qual, file=file, line=fd.lineno, body=body, users=users)
+        self.validators[key] = dict(name=name, key=qual, file=file, line=fd.lineno, first_line=first_line(fd), body=body, users=users)
         return self.validators[key]
 
     def function(self, cls, fname, fd, file, depth, stack):
@@ -815,12 +997,25 @@ class Translator:
                 chk["end_line"] = st.test.end_lineno
                 return pre + [chk] + self.block(ctx, st.orelse)
             pre = self.effects(ctx, st.test, st)
+            conj = st.test.values if isinstance(st.test, ast.BoolOp) and isinstance(st.test.op, ast.And) else [st.test]
+            ng = [ast.unparse(c) for c in conj if isinstance(c, (ast.Attribute, ast.Name, ast.Subscript))]
+            ctx.guards += ng
+            f0 = (set(ctx.fresh_deep), set(ctx.fresh_shallow), set(ctx.validated))
             b1 = self.block(ctx, st.body)
+            del ctx.guards[len(ctx.guards) - len(ng):]
+            f1 = (set(ctx.fresh_deep), set(ctx.fresh_shallow), set(ctx.validated))
+            ctx.fresh_deep, ctx.fresh_shallow, ctx.validated = set(f0[0]), set(f0[1]), set(f0[2])
             b2 = self.block(ctx, st.orelse)
+            # what holds after the statement holds on both paths
+            ctx.fresh_deep &= f1[0]
+            ctx.fresh_shallow &= f1[1]
+            ctx.validated &= f1[2]
             br = self.mk(ctx, "branch", st, cond=ast.unparse(st.test), b1=b1, b2=b2)
             br["end_line"] = st.test.end_lineno
             br["b1_line"] = st.body[0].lineno
+            br["b1_end"] = st.body[-1].end_lineno
             br["b2_line"] = st.orelse[0].lineno if st.orelse else None
+            br["b2_end"] = st.orelse[-1].end_lineno if st.orelse else None
             for p in pre:
                 p["end_line"] = st.test.end_lineno
             return pre + [br]
@@ -843,10 +1038,23 @@ class Translator:
                 if isinstance(n, ast.Name):
                     ctx.loopvars.add(n.id)
                     ctx.locals.add(n.id)
+            # a name the body rebinds is, at the start of an iteration, whatever the previous one left
+            for n in ast.walk(st):
+                if isinstance(n, (ast.Assign, ast.AugAssign)):
+                    for t in (n.targets if isinstance(n, ast.Assign) else [n.target]):
+                        if isinstance(t, ast.Name):
+                            ctx.fresh_deep.discard(t.id)
+                            ctx.fresh_shallow.discard(t.id)
+                            ctx.validated.discard(t.id)
+            f0 = (set(ctx.fresh_deep), set(ctx.fresh_shallow), set(ctx.validated))
             body = self.block(ctx, st.body)
+            ctx.fresh_deep &= f0[0]
+            ctx.fresh_shallow &= f0[1]
+            ctx.validated &= f0[2]
             lp = self.mk(ctx, "loop", st, body=body, it=ast.unparse(st.iter))
             lp["end_line"] = st.iter.end_lineno
             lp["body_line"] = st.body[0].lineno
+            lp["body_end"] = st.body[-1].end_lineno
             for p in pre:
                 p["end_line"] = st.iter.end_lineno
             return pre + [lp]
@@ -877,7 +1085,15 @@ class Translator:
             return out
         if isinstance(st, ast.Expr):
             if isinstance(st.value, ast.Call):
-                return self.effects(ctx, st.value, st)
+                out = self.effects(ctx, st.value, st)
+                v = st.value
+                fn = v.func.id if isinstance(v.func, ast.Name) else (v.func.attr if isinstance(v.func, ast.Attribute) else None)
+                if fn in ("Cells", "Materials", "Surfaces", "Transforms", "Universes") and len(v.args) == 1:
+                    a0 = v.args[0]
+                    if isinstance(a0, ast.Call) and _is_name(a0.func, "list") and len(a0.args) == 1 and isinstance(a0.args[0], ast.Name):
+                        ctx.validated.add(a0.args[0].id)
+                ctx.last_effect = ast.unparse(v.func)
+                return out
             raise TranslateError(f"{ctx.cls}.{ctx.fname}: expression statement {ast.unparse(st)}")
         if isinstance(st, (ast.Nonlocal, ast.Global)):
             raise TranslateError(f"{ctx.cls}.{ctx.fname}: {ast.unparse(st)} (closure / global state in a setter)")
@@ -1119,14 +1335,18 @@ def build():
             if fd.name.startswith("_"):
                 continue
             body = T.function(cname, fd.name, fd, ci["file"], 0, [(cname, fd.name + "." + kind)])
-            setters.append(dict(cls=cname, name=fd.name, kind=kind, file=ci["file"], line=fd.lineno, ir=number(body)))
+            setters.append(dict(cls=cname, name=fd.name, kind=kind, file=ci["file"], line=fd.lineno, ir=number(body),
+                                end_line=fd.end_lineno, first_line=first_line(fd), params=[a.arg for a in fd.args.args][1:],
+                                ndefaults=len(fd.args.defaults)))
             seen.add((cname, fd.name))
     for cname, m in METHODS:
         c, fd = ix.find_method(cname, m)
         if fd is None or c != cname:
             raise TranslateError(f"method {cname}.{m} not found")
         body = T.function(cname, m, fd, ix.classes[cname]["file"], 0, [(cname, m)])
-        setters.append(dict(cls=cname, name=m, kind="method", file=ix.classes[cname]["file"], line=fd.lineno, ir=number(body)))
+        setters.append(dict(cls=cname, name=m, kind="method", file=ix.classes[cname]["file"], line=fd.lineno, ir=number(body),
+                            end_line=fd.end_lineno, first_line=first_line(fd), params=[a.arg for a in fd.args.args][1:],
+                            ndefaults=len(fd.args.defaults)))
         seen.add((cname, m))
     # fail closed on public mutating methods that are neither translated nor excluded
     unclassified = []
